@@ -36,6 +36,8 @@ def gen_item(rng, ident, rich):
         'ml': 0, 'mr': 0, 'mt': 0, 'mb': 0,
         'pl': 0, 'pr': 0, 'pt': 0, 'pb': 0, 'bl': 0, 'br': 0, 'bt': 0, 'bb': 0,
         'align': pick(ALIGN_SELF),
+        # css-flexbox 3: `float` has no effect on a flex item (the model does not even receive it)
+        'float': pick(['none'] * 9 + ['left', 'right']),
     }
     if rich:
         if rng.random() < 0.35:
@@ -149,7 +151,7 @@ def item_css(it, shorthand=False):
            f'margin:{px(it["mt"])} {px(it["mr"])} {px(it["mb"])} {px(it["ml"])}',
            f'padding:{px(it["pt"])} {px(it["pr"])} {px(it["pb"])} {px(it["pl"])}',
            f'border-width:{px(it["bt"])} {px(it["br"])} {px(it["bb"])} {px(it["bl"])}',
-           f'align-self:{it["align"]}']
+           f'align-self:{it["align"]}', f'float:{it.get("float", "none")}']
     if it['minw'] is not None:
         css.append(f'min-width:{px(it["minw"])}')
     if it['maxw'] is not None:
